@@ -18,11 +18,11 @@ import (
 
 	dcodec "github.com/cocosip/go-dicom/pkg/imaging/codec"
 
+	jll "github.com/cocosip/go-dicom-codecs/jpeg/lossless"
 	"github.com/cocosip/go-dicom-codecs/jpeg2000"
 	"github.com/cocosip/go-dicom-codecs/jpeg2000/colorspace"
 	"github.com/cocosip/go-dicom-codecs/jpeg2000/mqc"
 	"github.com/cocosip/go-dicom-codecs/jpeg2000/wavelet"
-	jll "github.com/cocosip/go-dicom-codecs/jpeg/lossless"
 
 	"verif/internal/gen"
 	"verif/internal/globals"
@@ -90,15 +90,15 @@ type c18Image struct {
 }
 
 type stormResult struct {
-	Ops            int               `json:"ops"`
-	Mismatches     []string          `json:"mismatches"`
-	GlobalsChanged []string          `json:"globalsChanged"`
-	InstChanged    []string          `json:"instancesChanged"`
-	Overlapped     int64             `json:"overlapped"`
-	MaxInflight    map[string]int64  `json:"maxInflight"`
-	GlobalsTracked int               `json:"globalsTracked"`
-	LowLevelOps    int               `json:"lowLevelOps"`
-	Error          string            `json:"error,omitempty"`
+	Ops            int              `json:"ops"`
+	Mismatches     []string         `json:"mismatches"`
+	GlobalsChanged []string         `json:"globalsChanged"`
+	InstChanged    []string         `json:"instancesChanged"`
+	Overlapped     int64            `json:"overlapped"`
+	MaxInflight    map[string]int64 `json:"maxInflight"`
+	GlobalsTracked int              `json:"globalsTracked"`
+	LowLevelOps    int              `json:"lowLevelOps"`
+	Error          string           `json:"error,omitempty"`
 }
 
 func c18Images(r *gen.Rand) map[string][]c18Image {
@@ -180,9 +180,9 @@ func StormMain(arg string) int {
 	// before the storm, so decode inputs are produced inside the storm by the same
 	// goroutine (encode, then decode what it just got).
 	type rec struct {
-		op   c18Op
-		enc  callResult
-		dec  callResult
+		op  c18Op
+		enc callResult
+		dec callResult
 	}
 	plans := make([][]c18Op, c.G)
 	for g := range plans {
